@@ -55,6 +55,7 @@ PROBES = [1, 0.5, -0.5, 0.25, -0.25, 0.3, -0.7, 2, 3, 1.5, 2.5, 0, 0.75]
 
 def run(ctx):
     repo = ctx.repo
+    _record_writer_guards_reader_keys(ctx, repo)
     _rows_from_per_shot_sequence(ctx, repo)
     shared.aqt_single_qubit_shortcut_rule(ctx, 'C17.k')
     ctx.decided.append('C17.k the hard-wired single-qubit replacement of the AQT target gateset equals the gate it replaces')
@@ -646,3 +647,56 @@ def _rows_from_per_shot_sequence(ctx, repo, rid='C17.j'):
                    bad.lineno if bad is not None else fn.lineno)
     if n == 0:
         raise AnalysisError(f'{rid}: no to_cirq_result with a measurement sink found')
+
+
+def _record_writer_guards_reader_keys(ctx, repo, rid='C17.l'):
+    """Records joined with a separator by a writer and read back into a dictionary keyed by a field of the record: the writer refuses repeated keys."""
+    ctx.decided.append(f'{rid} the IonQ measurement metadata is read back into a dictionary keyed by measurement key, so the writer refuses two records with the same key')
+    ctx.rule(rid, 'one record per key on the way out when the way back is a dictionary: a cirq_ionq function that splits a string on a separator character and stores `d[key] = ...` per '
+             'record keeps only the last record of a key; the function that joins the records with the same separator therefore tests the keys for uniqueness (len(set(keys)) against '
+             'len(keys), or a membership test on the keys seen) and raises - a circuit measuring two qubits into one key is otherwise accepted and comes back with one of them',
+             floor=1, style='COH')
+    mods = [m for m in repo.modules.values() if m.rel.startswith('cirq-ionq/') and not m.rel.endswith('_test.py')]
+
+    def sep_of(call):
+        # chr(30).join(...) / x.split(chr(30))
+        f = call.func
+        if isinstance(f, ast.Attribute) and f.attr == 'join' and isinstance(f.value, ast.Call) and call_name(f.value) == 'chr' and f.value.args and isinstance(f.value.args[0], ast.Constant):
+            return ('join', f.value.args[0].value)
+        if isinstance(f, ast.Attribute) and f.attr == 'split' and call.args and isinstance(call.args[0], ast.Call) and call_name(call.args[0]) == 'chr' \
+                and call.args[0].args and isinstance(call.args[0].args[0], ast.Constant):
+            return ('split', call.args[0].args[0].value)
+        return None
+    readers, writers = {}, {}
+    for m in mods:
+        for fn in [f for f in ast.walk(m.tree) if isinstance(f, ast.FunctionDef)]:
+            for lp in [l for l in ast.walk(fn) if isinstance(l, ast.For)]:
+                if isinstance(lp.iter, ast.Call) and (sep_of(lp.iter) or ('', None))[0] == 'split':
+                    stores = [s_ for s_ in ast.walk(lp) if isinstance(s_, ast.Assign) and len(s_.targets) == 1 and isinstance(s_.targets[0], ast.Subscript)
+                              and isinstance(s_.targets[0].value, ast.Name)]
+                    if stores:
+                        readers[sep_of(lp.iter)[1]] = (m, fn, stores[0])
+            for c in ast.walk(fn):
+                if isinstance(c, ast.Call) and (sep_of(c) or ('', None))[0] == 'join':
+                    writers.setdefault(sep_of(c)[1], (m, fn, c))
+    n = 0
+    for sep, (rm, rfn, store) in sorted(readers.items()):
+        if sep not in writers:
+            continue
+        wm, wfn, wc = writers[sep]
+        n += 1
+        src = ast.unparse(wfn)
+        uniq = False
+        for c in ast.walk(wfn):
+            if isinstance(c, ast.Compare) and len(c.ops) == 1:
+                sides = [ast.unparse(c.left), ast.unparse(c.comparators[0])]
+                if any(s_.startswith('len(set(') for s_ in sides) and any(s_.startswith('len(') and not s_.startswith('len(set(') for s_ in sides):
+                    uniq = True
+                if isinstance(c.ops[0], (ast.In, ast.NotIn)) and any(isinstance(p_, ast.Raise) for p_ in ast.walk(wfn)):
+                    uniq = True
+        ok = uniq and any(isinstance(x, ast.Raise) for x in ast.walk(wfn))
+        ctx.ob(rid, f'{wm.name}.{wfn.name}:unique-keys-for:{rm.name}.{rfn.name}', ok, '' if ok else
+               f'{rfn.name} reads the records back with `{ast.unparse(store)[:60]}` (one entry per key), but {wfn.name}, which joins them with chr({sep}), never checks that the keys are '
+               'distinct', wm.rel, wc.lineno)
+    if n == 0:
+        raise AnalysisError(f'{rid}: no separator-joined record writer with a dictionary reader found in cirq_ionq')
